@@ -104,6 +104,8 @@ type evidence struct {
 	Violations  int                    `json:"violations"`
 }
 
+var regressions []map[string]string
+
 func runCheck(prop, tier string, seed int) int {
 	t0 := time.Now()
 	props, err := loadProps()
@@ -225,6 +227,51 @@ func runCheck(prop, tier string, seed int) int {
 			line += " no-failing-input-found"
 		}
 		fmt.Println(line)
+	}
+	// thorough tier: the scenarios of the recorded findings are re-run against the real code. A fixed
+	// defect whose scenario reproduces again is a violation with a confirmed failing input; a known
+	// finding is expected to reproduce (reported, not counted).
+	if tier == "thorough" {
+		ranDriver := map[string]bool{}
+		for _, k := range known {
+			if k.Property != prop {
+				continue
+			}
+			driver := ""
+			for pat, d := range cfg.Replay {
+				if ok, _ := regexp.MatchString(pat, k.Obligation); ok {
+					driver = d
+				}
+			}
+			if driver == "" || ranDriver[driver] {
+				continue
+			}
+			ranDriver[driver] = true
+			rf := replayFile{Property: prop, Obligation: k.Obligation, Kind: "regression", Clause: k.What, Driver: driver, Result: "scenario of a recorded finding re-run against the real code"}
+			out, pkgDir, reproduced, err := runDriver(driver, rf)
+			rf.DriverPkg, rf.TestOutput = pkgDir, truncate(out, 6000)
+			switch {
+			case err != nil:
+				rf.Outcome = "driver-error: " + err.Error()
+			case reproduced:
+				rf.Outcome = "confirmed"
+			default:
+				rf.Outcome = "not-reproduced"
+			}
+			path := filepath.Join(replayDir, fmt.Sprintf("regression_%s.json", sanitize(driver)))
+			b, _ := json.MarshalIndent(rf, "", " ")
+			os.WriteFile(path, b, 0o644)
+			regressions = append(regressions, map[string]string{"driver": driver, "finding": k.Obligation, "status": k.Status, "outcome": rf.Outcome})
+			if k.Status == "fixed" && reproduced {
+				violations++
+				fmt.Printf("  the scenario of the fixed defect %s reproduces again on the real code (driver %s)\n", k.Obligation, driver)
+				fmt.Printf("VIOLATION property=%s replay=%s\n", prop, path)
+			} else if k.Status == "fixed" && err != nil {
+				toolErrs = append(toolErrs, fmt.Sprintf("replay driver %s: %v", driver, err))
+			} else {
+				fmt.Printf("replay %s (%s finding %s): %s\n", driver, k.Status, k.Obligation, rf.Outcome)
+			}
+		}
 	}
 	for _, e := range toolErrs {
 		fmt.Println("UNDECIDED", e)
@@ -367,6 +414,7 @@ func writeEvidence(prop, tier string, seed int, res []*fnResult, all []*Oblig, c
 		"vacuity":                  covers,
 		"bounded":                  cfg.Bounded,
 		"tool_errors":              toolErrs,
+		"replayed_findings":        regressions,
 		"known_finding_obligations": nknown,
 		"failed_obligations_of_other_properties": nother,
 		"lemmas":                   cfg.Lemmas,
